@@ -64,7 +64,8 @@ RandomTokenEdit ==
 RandomCharEdit ==
   /\ base # <<>> /\ Len(hist) = MaxEdits - 1 /\ doc # <<>>          \* (the last edit of a history; it may be the second
   \*                                                                    half of a batch if its predecessor is marked "batch")
-  /\ \E kind \in {RandomElement({"split", "join", "insert", "delete", "space", "space"})}, i \in {RandomElement(1..Len(doc))},
+  \* ("comment": the comment starter `//` typed in front of token i comments the rest of the line out)
+  /\ \E kind \in {RandomElement({"split", "join", "insert", "delete", "space", "comment"})}, i \in {RandomElement(1..Len(doc))},
         k \in {RandomElement(0..3)}, c \in {RandomElement(Chars)} :
        hist' = Append(hist, Edit(kind, i, i, <<>>, k, c))
   /\ UNCHANGED <<vars, doc, base>>
